@@ -282,4 +282,51 @@ theorem error_bit_never_response_rtu_crc (v sp : Bytes) (x : Resp)
     · simp at h
     · exact error_bit_never_response_rtu v sp x h
 
+/-! ### the exception recognisers decide exactly "an exception frame"
+
+`AsTCPErrorPacket` / `AsRTUErrorPacket` (what the clients ask after every read) answer every input: an exception for the
+nine (five) bytes whose function byte has the error bit, and NOTHING (`nil`, no error at all, no panic) for every other
+input - in particular for frames of the exception size that are ordinary replies. -/
+
+theorem recogniser_rtu (v sp : Bytes) :
+    asRTUErrorPacket ⟨v, sp⟩ =
+      if v.length = 5 ∧ (v.getD 1 0) &&& 128 ≠ 0 then .ok (some (.excR (v.getD 0 0) (v.getD 1 0 - 128) (v.getD 2 0)))
+      else .ok none := by
+  unfold asRTUErrorPacket
+  dsimp only
+  by_cases hlen : v.length = 5
+  · by_cases hbit : (v.getD 1 0) &&& 128 ≠ 0
+    · simp (disch := omega) only [hlen, ne_eq, not_true_eq_false, if_false, Res.bind_ok, idx_eq, hbit,
+        not_false_eq_true, if_true, and_self, Nat.reduceLT]
+    · have hb : (v.getD 1 0) &&& 128 = 0 := by simpa using hbit
+      simp (disch := omega) only [hlen, ne_eq, not_true_eq_false, if_false, Res.bind_ok, idx_eq, hb,
+        if_true, and_false, Nat.reduceLT]
+  · simp only [ne_eq, hlen, not_false_eq_true, if_true, false_and, if_false]
+
+theorem recogniser_tcp (v sp : Bytes) :
+    asTCPErrorPacket ⟨v, sp⟩ =
+      if v.length = 9 ∧ (v.getD 7 0) &&& 128 ≠ 0 then
+        .ok (some (.excT (be16 (v.getD 0 0) (v.getD 1 0)) (v.getD 6 0) (v.getD 7 0 - 128) (v.getD 8 0)))
+      else .ok none := by
+  unfold asTCPErrorPacket
+  dsimp only
+  by_cases hlen : v.length = 9
+  · by_cases hbit : (v.getD 7 0) &&& 128 ≠ 0
+    · simp (disch := omega) only [hlen, ne_eq, not_true_eq_false, if_false, Res.bind_ok, idx_eq, rd16_eq, hbit,
+        not_false_eq_true, if_true, and_self, Nat.reduceAdd, Nat.reduceLT]
+    · have hb : (v.getD 7 0) &&& 128 = 0 := by simpa using hbit
+      simp (disch := omega) only [hlen, ne_eq, not_true_eq_false, if_false, Res.bind_ok, idx_eq, hb,
+        if_true, and_false, Nat.reduceLT]
+  · simp only [ne_eq, hlen, not_false_eq_true, if_true, false_and, if_false]
+
+/-- a frame of the exception size whose function byte has no error bit is not an error of any kind -/
+theorem recogniser_rtu_ordinary_reply (v sp : Bytes) (h : (v.getD 1 0) &&& 128 = 0) :
+    asRTUErrorPacket ⟨v, sp⟩ = .ok none := by
+  rw [recogniser_rtu, if_neg]
+  intro hc; exact hc.2 h
+
+/-- non-vacuity: five bytes of an ordinary reply; five bytes of an exception -/
+example : asRTUErrorPacket ⟨[1, 3, 2, 0xA1, 0x31], []⟩ = .ok none ∧
+    asRTUErrorPacket ⟨[1, 0x83, 2, 0xC0, 0xF1], []⟩ = .ok (some (.excR 1 3 2)) := by decide
+
 end Modbus.Properties.C02
